@@ -21,6 +21,21 @@ def make_cases(rng, tier, n):
             stats["kind_many_stages_%d" % ns] = 1
             cases.append(c)
             continue
+        if i % 10 == 8:
+            # the object is EXTENDED by a hole (preallocation, truncate -s +N): its former length a whole number of blocks; also a name
+            # that leaves no room for a suffix
+            n0 = [4096, 8192, 65536, 12288][(i // 10) % 4]
+            sd = rng.randrange(1000)
+            nm = [b"holey.bin", b"H" * 250 + b".bin", b"h.bin", b"N" * 244][(i // 10) % 4]
+            c = dict(id="cor-%d" % i, cache=rng.choice(["rel", "abs"]), init=[("file", nm, "g:%d:%d" % (sd, n0)), ("dir", b"hd"), ("file", b"hd/" + nm, "g:%d:%d" % (sd + 1, n0))],
+                     stages=[(b"holey.yaml", dict(cmd=b"", wd=b".", out=[(nm, "")])), (b"hd.yaml", dict(cmd=b"", wd=b".", out=[(b"hd", "d")]))])
+            which = nm if (i // 10) % 2 == 0 else b"hd/" + nm
+            c["ops"] = [("commit", rng.choice("lc"), []), ("corrupt", "p" + s1.hx(which), "sp:%d:%d:%d" % (sd + (0 if which == nm else 1), n0, n0 + rng.choice([4096, 65536]))),
+                        ("clone", []), ("checkout", "c", False, []), ("checkout", "c", False, [])]
+            c["kind"] = "extend-hole"
+            stats["kind_extend_hole"] = stats.get("kind_extend_hole", 0) + 1
+            cases.append(c)
+            continue
         wide = (i % 10 == 4)
         c = gen.basic_project(rng, "cor-%d" % i, tier, stats=stats, allow_skip=False, allow_inputs=False, wide=wide)
         kind = rng.choice(["flip", "truncate", "extend", "truncate0", "other"])
